@@ -279,6 +279,10 @@ def stores(fn, rec=None):
         if t['k'] == 'call' and t['dest']['pr']:
             out.append({'block': bi, 'idx': 'term', 'target': rb.place(t['dest']), 'value': rb.call(t),
                         'span': t.get('span')})
+        if t['k'] == 'call' and (t.get('resolved') or t.get('callee') or '').endswith(('core::mem::replace', 'std::mem::replace')) and len(t['args']) == 2:
+            # `mem::replace(&mut place, v)` writes v into place (and returns the old value)
+            out.append({'block': bi, 'idx': 'term', 'target': ('deref', rb.operand(t['args'][0])), 'value': rb.operand(t['args'][1]),
+                        'span': t.get('span'), 'via': 'mem::replace'})
     return out
 
 
